@@ -52,8 +52,8 @@ def gen(ctx):
                                   [('json', None), ('limit', n), ('total', col('v'), None)], lines,
                                   base_tags | {'thentotal'}, note={'expect_ids': [r['id'] for r in expected_limit(data, n)]}))
         # after an aggregate: count by k, implicit sort, limit
-        for n in (1, 2, -1, -2, 5, -5):
-            cases.append(Case('afteragg-%d-%d' % (ln, n), STAR,
+        for n in (1, 2, -1, -2, 5, -5, None):
+            cases.append(Case('afteragg-%d-%s' % (ln, n), STAR,
                               [('json', None), ('agg', [(None, ('count', None))], [(None, col('k'))]), ('limit', n)],
                               lines, {'afteragg', 'table', 'nt'}))
     # chained limits, all sign combinations
